@@ -6,13 +6,18 @@ PID = "C02"
 
 def run(v):
     n, steps = (24, 30) if v.tier == "quick" else (600, 40)
+    # quick: deterministic, replayable interleavings only (commits injected at log points inside the
+    # protocols); thorough: additionally a real concurrent writer goroutine (schedule-dependent)
+    extra = ["-concurrent"] if v.tier == "thorough" else []
     D.run_db(v, PID, "c02", n, steps,
-             "a concurrent application writer (multi-statement transactions stamping one version number into three tables on "
+             "application commits interleaved with litestream in three ways: (a) injected from a logger hook at the n-th log record "
+             "INSIDE Sync / Checkpoint / Snapshot / Compact (deterministic, replayable), (b) a WAL that predates litestream, with a pinned "
+             "reader, a partial application checkpoint and a budgeted first sync, (c) thorough tier only: a concurrent application writer (multi-statement transactions stamping one version number into three tables on "
              "different pages, one in five rolled back) against litestream Sync / Replica.Sync / SyncAndWait / Checkpoint in 4 modes / "
              "Snapshot / Compact chosen at random x page size x thresholds x MaxSyncWALBytes; afterwards every TXID listed at any level "
              "(all of them up to 80, else every level>=1 TXID, the newest 20 and a sample) is restored twice - with all levels and from "
              "the level-0 chain alone - and must be identical both ways, show one version in all three tables (never a rolled-back "
-             "marker), be monotone in the TXID; level 0 must be gapless from 1. non-trivial = at least one acknowledged instant.")
+             "marker), be monotone in the TXID; level 0 must be gapless from 1. non-trivial = at least one acknowledged instant.", extra_args=extra)
 
 
 def replay(v, path):
